@@ -332,10 +332,20 @@ Definition c_set (k v : bytes) (hint : Z) (fail : option nat) (c : cst) : option
               + (part-store mode) the inner store and the oversize hints ---------- *)
 Inductive handle :=
 | HCache (r : rd)                                               (* reader returned by Cache.Get *)
-| HInner (data : bytes) (off : nat)                             (* inner part store reader, no fill *)
-| HStream (data : bytes) (off written : nat) (active : bool) (sid : nat).   (* streamingCacheOnReadCloser *)
+| HInner (data : bytes) (off : nat) (trunc : bool)              (* inner part store reader, no fill *)
+| HStream (data : bytes) (off written : nat) (active : bool) (sid : nat) (trunc : bool).   (* streamingCacheOnReadCloser *)
+(* [trunc]: the inner reader fails (non-EOF error) where [data] ends; [data] is then what it delivers before *)
 
-Record pending := { pd_key : bytes; pd_hint : Z; pd_wr : wr; pd_total : nat; pd_src : bytes }.
+(* [pd_failat = Some j]: the persistor's Store fails as soon as it has consumed >= j bytes (checked when it asks
+   for more) *)
+Record pending := { pd_key : bytes; pd_hint : Z; pd_wr : wr; pd_total : nat; pd_src : bytes; pd_failat : option nat }.
+
+(* faults injected into one GetPart *)
+Inductive fault :=
+| FNone
+| FReadFail (k : nat)      (* the inner reader delivers k bytes, then a non-EOF error (no fault if the part is shorter) *)
+| FOpenErr                 (* inner GetPart returns an error *)
+| FStoreFail (j : nat).    (* the cache persistor's Store of the miss fill fails after >= j bytes *)
 
 Record world := {
   w_c : cst;
@@ -379,6 +389,9 @@ Definition clear_hint (k : bytes) (w : world) : world :=
 Inductive res :=
 | ROk | RBad | RMiss | RNotFound
 | RVal (v : bytes)             (* bytes delivered by this step *)
+| RValErr (v : bytes)          (* bytes delivered, then the read reported the injected error *)
+| RErr                         (* the operation returned an (injected) error *)
+| RHang                        (* the read never returns *)
 | ROpen (kind : bytes).        (* "h" cache hit, "s" streaming fill, "i" inner pass-through *)
 
 Inductive op :=
@@ -401,7 +414,14 @@ Inductive op :=
 | PInner (id v : bytes)                 (* a part the inner store already holds (written before a restart); only for absent ids *)
 | PDelete (id : bytes)
 | POpen (h : nat) (id : bytes)
-| PGet (id : bytes).                     (* GetPart + ReadAll + Close *)
+| PGet (id : bytes)                      (* GetPart + ReadAll + Close *)
+(* faults *)
+| POpenF (h : nat) (id : bytes) (f : fault)
+| PGetF (id : bytes) (f : fault)         (* GetPart under a fault + ReadAll + Close *)
+| PGetClose (id : bytes) (n : nat)       (* GetPart, read n bytes, Close early *)
+| PPutFail (id v : bytes)                (* the inner store's PutPart fails *)
+| PDeleteFail (id : bytes)               (* the inner store's DeletePart fails *)
+| PPutStoreFail (id v : bytes) (j : nat). (* PutPart whose cache Set fails in the persistor after >= j bytes *)
 
 (* ---- streaming fill of the part store: what the goroutine does when Set returns ---- *)
 Definition fill_fail (sid : nat) (oversize : bool) (w : world) : world :=
@@ -430,25 +450,39 @@ Definition feed (sid : nat) (chunk : bytes) (w : world) : world :=
   | None => w
   | Some pd =>
       let (c1, wr') := c_chunk (pd_wr pd) chunk (w_c w) in
-      set_sets (nset sid {| pd_key := pd_key pd; pd_hint := pd_hint pd; pd_wr := wr';
-                            pd_total := pd_total pd + length chunk; pd_src := skipn (length chunk) (pd_src pd) |}
-                     (w_sets w)) (set_c c1 w)
+      let total' := pd_total pd + length chunk in
+      match pd_failat pd with
+      | Some j =>
+          if j <=? total'
+          then (* Store returns the error: Set removes the key, the fill goroutine removes it again and ends;
+                  nobody closes the pipe's read end *)
+               set_sets (nremove sid (w_sets w)) (set_c (c_remove (pd_key pd) (c_end_err (pd_key pd) c1)) w)
+          else set_sets (nset sid {| pd_key := pd_key pd; pd_hint := pd_hint pd; pd_wr := wr'; pd_total := total';
+                                     pd_src := skipn (length chunk) (pd_src pd); pd_failat := pd_failat pd |}
+                              (w_sets w)) (set_c c1 w)
+      | None =>
+          set_sets (nset sid {| pd_key := pd_key pd; pd_hint := pd_hint pd; pd_wr := wr'; pd_total := total';
+                                pd_src := skipn (length chunk) (pd_src pd); pd_failat := None |}
+                         (w_sets w)) (set_c c1 w)
+      end
   end.
 
-(* Read on a handle for up to n bytes with io.ReadFull semantics ([n = None]: until EOF).
-   Returns the bytes, the new handle and the new world; None = panic (in the fill) *)
-Definition h_read (hd : handle) (n : option nat) (w : world) : option (bytes * handle * world) :=
+(* Read on a handle for up to n bytes with io.ReadFull semantics ([n = None]: until EOF / error).
+   Returns the bytes, whether the read reported the injected inner error, the new handle and the new world;
+   None = panic (in the fill) *)
+Definition h_read (hd : handle) (n : option nat) (w : world) : option (bytes * bool * handle * world) :=
   match hd with
   | HCache r =>
       match n with
-      | Some n => let (c, r') := rd_read r n (c_p (w_c w)) in Some (c, HCache r', w)
-      | None => let c := rd_rest r (c_p (w_c w)) in Some (c, HCache (snd (rd_read r (length c) (c_p (w_c w)))), w)
+      | Some n => let (c, r') := rd_read r n (c_p (w_c w)) in Some (c, false, HCache r', w)
+      | None => let c := rd_rest r (c_p (w_c w)) in Some (c, false, HCache (snd (rd_read r (length c) (c_p (w_c w)))), w)
       end
-  | HInner data off =>
+  | HInner data off trunc =>
       let rest := skipn off data in
       let c := match n with Some n => firstn n rest | None => rest end in
-      Some (c, HInner data (off + length c), w)
-  | HStream data off written active sid =>
+      let eof := match n with Some n => length c <? n | None => true end in
+      Some (c, eof && trunc, HInner data (off + length c) trunc, w)
+  | HStream data off written active sid trunc =>
       let rest := skipn off data in
       let c := match n with Some n => firstn n rest | None => rest end in
       let eof := match n with Some n => length c <? n | None => true end in
@@ -458,17 +492,74 @@ Definition h_read (hd : handle) (n : option nat) (w : world) : option (bytes * h
                 then (if over then fill_fail sid true w else feed sid c w) else w in
       let active1 := active && negb over in
       if eof && active1 then
-        match fill_ok sid w1 with
-        | None => None
-        | Some w2 => Some (c, HStream data (off + length c) written' false sid, w2)
-        end
-      else Some (c, HStream data (off + length c) written' active1 sid, w1)
+        if trunc then (* non-EOF error from the inner reader: pipe closed with the error, nothing is cached *)
+          Some (c, true, HStream data (off + length c) written' false sid trunc, fill_fail sid false w1)
+        else
+          match fill_ok sid w1 with
+          | None => None
+          | Some w2 => Some (c, false, HStream data (off + length c) written' false sid trunc, w2)
+          end
+      else Some (c, eof && trunc, HStream data (off + length c) written' active1 sid trunc, w1)
+  end.
+
+(* the fill's Set has already returned (persistor failure) but the reader side still writes into the pipe: the
+   write of a non-empty chunk below the size threshold blocks for ever *)
+Definition would_hang (hd : handle) (n : option nat) (w : world) : bool :=
+  match hd with
+  | HStream data off written true sid _ =>
+      match nlookup sid (w_sets w) with
+      | Some _ => false
+      | None =>
+          let c := match n with Some n => firstn n (skipn off data) | None => skipn off data end in
+          (0 <? length c) && negb (w_maxpart w <? written + length c)
+      end
+  | _ => false
   end.
 
 Definition h_close (hd : handle) (w : world) : world :=
   match hd with
-  | HStream _ _ _ true sid => fill_fail sid false w
+  | HStream _ _ _ true sid _ => fill_fail sid false w
   | _ => w
+  end.
+
+(* GetPart: the common part of POpen / POpenF *)
+Definition part_open (h : nat) (id : bytes) (f : fault) (w : world) : option (res * world) :=
+  match nlookup h (w_handles w) with
+  | Some _ => Some (RBad, w)
+  | None =>
+      let (c, r) := c_get id (w_c w) in
+      let w1 := set_c c w in
+      match r with
+      | Some r => Some (ROpen B"h", set_handles (nset h (HCache r) (w_handles w1)) w1)
+      | None =>
+          match f with
+          | FOpenErr => Some (RErr, w1)
+          | _ =>
+          match alookup id (w_inner w1) with
+          | None => Some (RNotFound, w1)
+          | Some data0 =>
+              let trunc := match f with FReadFail k => k <? length data0 | _ => false end in
+              let data := match f with FReadFail k => firstn k data0 | _ => data0 end in
+              if mem_bytes id (w_hints w1)
+              then Some (ROpen B"i", set_handles (nset h (HInner data 0 trunc) (w_handles w1)) w1)
+              else
+                match c_begin id (-1) (w_c w1) with
+                | None => None
+                | Some (c2, wr0) =>
+                    let sid := w_nextsid w1 in
+                    let failat := match f with FStoreFail j => Some j | _ => None end in
+                    let w2 := bump_sid (set_c c2 w1) in
+                    let w3 := match failat with
+                              | Some 0 => (* Store fails on its first Read *)
+                                  set_c (c_remove id (c_end_err id c2)) w2
+                              | _ => set_sets (nset sid {| pd_key := id; pd_hint := (-1)%Z; pd_wr := wr0; pd_total := 0;
+                                                          pd_src := []; pd_failat := failat |} (w_sets w2)) w2
+                              end in
+                    Some (ROpen B"s", set_handles (nset h (HStream data 0 0 true sid trunc) (w_handles w3)) w3)
+                end
+          end
+          end
+      end
   end.
 
 (* one step; None = panic *)
@@ -502,7 +593,7 @@ Definition step1 (o : op) (w : world) : option (res * world) :=
           match c_begin k hint (w_c w) with
           | None => None
           | Some (c, wr0) =>
-              Some (ROk, set_sets (nset s {| pd_key := k; pd_hint := hint; pd_wr := wr0; pd_total := 0; pd_src := v |}
+              Some (ROk, set_sets (nset s {| pd_key := k; pd_hint := hint; pd_wr := wr0; pd_total := 0; pd_src := v; pd_failat := None |}
                                         (w_sets w)) (set_c c w))
           end
       end
@@ -530,18 +621,24 @@ Definition step1 (o : op) (w : world) : option (res * world) :=
       match nlookup h (w_handles w) with
       | None => Some (RBad, w)
       | Some hd =>
+          if would_hang hd (Some n) w then Some (RHang, set_handles (nremove h (w_handles w)) w)
+          else
           match h_read hd (Some n) w with
           | None => None
-          | Some (c, hd', w') => Some (RVal c, set_handles (nset h hd' (w_handles w')) w')
+          | Some (c, err, hd', w') =>
+              Some ((if err then RValErr c else RVal c), set_handles (nset h hd' (w_handles w')) w')
           end
       end
   | OFinish h =>
       match nlookup h (w_handles w) with
       | None => Some (RBad, w)
       | Some hd =>
+          if would_hang hd None w then Some (RHang, set_handles (nremove h (w_handles w)) w)
+          else
           match h_read hd None w with
           | None => None
-          | Some (c, hd', w') => Some (RVal c, set_handles (nremove h (w_handles w')) (h_close hd' w'))
+          | Some (c, err, hd', w') =>
+              Some ((if err then RValErr c else RVal c), set_handles (nremove h (w_handles w')) (h_close hd' w'))
           end
       end
   | OClose h =>
@@ -572,33 +669,25 @@ Definition step1 (o : op) (w : world) : option (res * world) :=
           let w1 := clear_hint id (set_inner (aremove id (w_inner w)) w) in
           Some (ROk, set_c (c_remove id (w_c w1)) w1)
       end
-  | POpen h id =>
-      match nlookup h (w_handles w) with
-      | Some _ => Some (RBad, w)
-      | None =>
-          let (c, r) := c_get id (w_c w) in
-          let w1 := set_c c w in
-          match r with
-          | Some r => Some (ROpen B"h", set_handles (nset h (HCache r) (w_handles w1)) w1)
-          | None =>
-              match alookup id (w_inner w1) with
-              | None => Some (RNotFound, w1)
-              | Some data =>
-                  if mem_bytes id (w_hints w1)
-                  then Some (ROpen B"i", set_handles (nset h (HInner data 0) (w_handles w1)) w1)
-                  else
-                    match c_begin id (-1) (w_c w1) with
-                    | None => None
-                    | Some (c2, wr0) =>
-                        let sid := w_nextsid w1 in
-                        let w2 := bump_sid (set_sets (nset sid {| pd_key := id; pd_hint := (-1)%Z; pd_wr := wr0;
-                                                                  pd_total := 0; pd_src := [] |} (w_sets w1))
-                                                     (set_c c2 w1)) in
-                        Some (ROpen B"s", set_handles (nset h (HStream data 0 0 true sid) (w_handles w2)) w2)
-                    end
-              end
-          end
-      end
+  | POpen h id => part_open h id FNone w
+  | POpenF h id f => part_open h id f w
+  | PPutFail id v => Some (RErr, w)
+  | PDeleteFail id => Some (RErr, w)
+  | PPutStoreFail id v j =>
+      let w1 := set_inner (aset id v (w_inner w)) w in
+      if length v <=? w_maxpart w then
+        let w2 := clear_hint id w1 in
+        (* effective iff j <= length v: nothing (j = 0) or everything has been written when Store fails *)
+        let fail := if j <=? length v then Some (if j =? 0 then 0 else length v) else None in
+        match c_set id v (Z.of_nat (length v)) fail (w_c w2) with
+        | None => None
+        | Some c => Some (ROk, set_c (match fail with Some _ => c_remove id c | None => c end) w2)
+        end
+      else
+        let w2 := mark_hint id w1 in
+        Some (ROk, set_c (c_remove id (w_c w2)) w2)
+  | PGetF _ _ => Some (RBad, w)   (* handled by [step] *)
+  | PGetClose _ _ => Some (RBad, w)
   | PGet id => Some (RBad, w)   (* handled by [step] *)
   end.
 
@@ -610,6 +699,26 @@ Definition step (o : op) (w : world) : option (res * world) :=
       match step1 (POpen tmp_handle id) w with
       | None => None
       | Some (ROpen _, w1) => step1 (OFinish tmp_handle) w1
+      | Some (r, w1) => Some (r, w1)
+      end
+  | PGetF id f =>
+      match step1 (POpenF tmp_handle id f) w with
+      | None => None
+      | Some (ROpen _, w1) => step1 (OFinish tmp_handle) w1
+      | Some (r, w1) => Some (r, w1)
+      end
+  | PGetClose id n =>
+      match step1 (POpen tmp_handle id) w with
+      | None => None
+      | Some (ROpen _, w1) =>
+          match step1 (ORead tmp_handle n) w1 with
+          | None => None
+          | Some (r, w2) =>
+              match step1 (OClose tmp_handle) w2 with
+              | None => None
+              | Some (_, w3) => Some (r, w3)
+              end
+          end
       | Some (r, w1) => Some (r, w1)
       end
   | _ => step1 o w
@@ -630,6 +739,7 @@ Fixpoint run (ops : list op) (w : world) : option (list res) :=
    op    : comma separated fields, first = letter. Values travel as (vid,len): byte i = (37*vid+11*i+1) mod 251.
            S,k,vid,len,hint  E,k,vid,len,n,hint  G,k  X,k  O,h,k  B,s,k,vid,len,hint  W,s,n  Z,s  Y,s
            R,h,n  F,h  C,h   P,id,vid,len  I,id,vid,len  D,id  Q,h,id  T,id
+           faults: Q,h,id,<n|e|r<k>|s<j>>  Tr,id,k  Ts,id,j  Te,id  Tc,id,n  Pf,id,vid,len  Df,id  Ps,id,vid,len,j
            hint = decimal or "m" for -1
    output: PANIC | results joined by ';' : ok bad miss nf  V<hex>  o<kind> ; T prints like F *)
 Definition content (vid len : N) : bytes :=
@@ -642,6 +752,18 @@ Definition opt_bind {A C} (o : option A) (f : A -> option C) : option C :=
   match o with Some x => f x | None => None end.
 Notation "'let?' x := e 'in' k" := (opt_bind e (fun x => k)) (at level 200, x pattern, e at level 100, k at level 200).
 
+(* fault token: n | e | r<k> | s<j> *)
+Definition parse_fault (t : bytes) : option fault :=
+  match t with
+  | c :: rest =>
+      if beqb c "n"%byte then (match rest with [] => Some FNone | _ => None end)
+      else if beqb c "e"%byte then (match rest with [] => Some FOpenErr | _ => None end)
+      else if beqb c "r"%byte then option_map FReadFail (parse_nat rest)
+      else if beqb c "s"%byte then option_map FStoreFail (parse_nat rest)
+      else None
+  | [] => None
+  end.
+
 Definition parse_op (t : bytes) : option op :=
   match split_on ","%byte t with
   | [c; a1] =>
@@ -653,21 +775,31 @@ Definition parse_op (t : bytes) : option op :=
       else if bytes_eqb c B"C" then let? h := parse_nat a1 in Some (OClose h)
       else if bytes_eqb c B"D" then Some (PDelete a1)
       else if bytes_eqb c B"T" then Some (PGet a1)
+      else if bytes_eqb c B"Te" then Some (PGetF a1 FOpenErr)
+      else if bytes_eqb c B"Df" then Some (PDeleteFail a1)
       else None
   | [c; a1; a2] =>
       if bytes_eqb c B"O" then let? h := parse_nat a1 in Some (OOpen h a2)
       else if bytes_eqb c B"W" then let? s := parse_nat a1 in let? n := parse_nat a2 in Some (OFeed s n)
       else if bytes_eqb c B"R" then let? h := parse_nat a1 in let? n := parse_nat a2 in Some (ORead h n)
       else if bytes_eqb c B"Q" then let? h := parse_nat a1 in Some (POpen h a2)
+      else if bytes_eqb c B"Tr" then let? k := parse_nat a2 in Some (PGetF a1 (FReadFail k))
+      else if bytes_eqb c B"Ts" then let? j := parse_nat a2 in Some (PGetF a1 (FStoreFail j))
+      else if bytes_eqb c B"Tc" then let? n := parse_nat a2 in Some (PGetClose a1 n)
       else None
   | [c; a1; a2; a3] =>
       if bytes_eqb c B"P" then let? vid := parse_N a2 in let? len := parse_N a3 in Some (PPut a1 (content vid len))
+      else if bytes_eqb c B"Pf" then let? vid := parse_N a2 in let? len := parse_N a3 in Some (PPutFail a1 (content vid len))
+      else if bytes_eqb c B"Q" then let? h := parse_nat a1 in let? f := parse_fault a3 in Some (POpenF h a2 f)
       else if bytes_eqb c B"I" then let? vid := parse_N a2 in let? len := parse_N a3 in Some (PInner a1 (content vid len))
       else None
   | [c; a1; a2; a3; a4] =>
       if bytes_eqb c B"S" then
         let? vid := parse_N a2 in let? len := parse_N a3 in let? hint := parse_hint a4 in
         Some (OSet a1 (content vid len) hint)
+      else if bytes_eqb c B"Ps" then
+        let? vid := parse_N a2 in let? len := parse_N a3 in let? j := parse_nat a4 in
+        Some (PPutStoreFail a1 (content vid len) j)
       else None
   | [c; a1; a2; a3; a4; a5] =>
       if bytes_eqb c B"E" then
@@ -696,6 +828,8 @@ Definition show_res (r : res) : bytes :=
   match r with
   | ROk => B"ok" | RBad => B"bad" | RMiss => B"miss" | RNotFound => B"nf"
   | RVal v => "V"%byte :: tok_bytes v
+  | RValErr v => "V"%byte :: tok_bytes v ++ B"!"
+  | RErr => B"err" | RHang => B"HANG"
   | ROpen k => "o"%byte :: k
   end.
 
